@@ -409,6 +409,43 @@ func loadPtr(T types.Type, p value) value {
 	case *value:
 		return load(T, p)
 	case symptr:
+		// reference-typed cells: merge candidates that hold the same reference first, so that the
+		// path forks once per distinct target rather than once per index
+		switch T.Underlying().(type) {
+		case *types.Pointer, *types.Slice, *types.Map, *types.Chan, *types.Signature, *types.Interface:
+			type group struct {
+				v value
+				g *Term
+			}
+			var groups []group
+			for i, c := range p.cells {
+				v := *c
+				found := false
+				for k := range groups {
+					if sameRef(groups[k].v, v) {
+						groups[k].g = mkOr(groups[k].g, p.guards[i])
+						found = true
+						break
+					}
+				}
+				if !found {
+					groups = append(groups, group{v, p.guards[i]})
+				}
+			}
+			if len(groups) == 1 {
+				return groups[0].v
+			}
+			gs := make([]*Term, len(groups))
+			for k := range groups {
+				gs[k] = groups[k].g
+			}
+			return groups[chooseOne(gs)].v
+		}
+		if !scalarOnly(T) {
+			// aggregates with strings or references inside do not merge into one ite value:
+			// pick the cell by a model-guided choice (one fork per feasible cell)
+			return load(T, p.cells[chooseOne(p.guards)])
+		}
 		var acc value
 		for i := len(p.cells) - 1; i >= 0; i-- {
 			v := load(T, p.cells[i])
@@ -686,4 +723,23 @@ func (it *mapIter) next() tuple {
 		return []value{true, e.key, e.val}
 	}
 	return []value{false, nil, nil}
+}
+
+// scalarOnly reports whether values of type T consist of integers and booleans only (so that a
+// guarded choice among them merges into ite terms without forking).
+func scalarOnly(T types.Type) bool {
+	switch ut := T.Underlying().(type) {
+	case *types.Basic:
+		return ut.Info()&(types.IsInteger|types.IsBoolean) != 0
+	case *types.Struct:
+		for i := 0; i < ut.NumFields(); i++ {
+			if !scalarOnly(ut.Field(i).Type()) {
+				return false
+			}
+		}
+		return true
+	case *types.Array:
+		return scalarOnly(ut.Elem())
+	}
+	return false
 }
